@@ -89,16 +89,23 @@ def world_seed(base_seed, i):
     return (int(base_seed) * 1_000_003 + i) % (2 ** 61 - 1)
 
 
-def _batch(args):
-    pid, seeds, tier = args
-    faulthandler.dump_traceback_later(1500, exit=True)
+def _worker_memory_limit():
     try:  # a defective allocation (huge sample arrays) must not take the machine down: MemoryError inside the world
         import resource
 
-        lim = int(os.environ.get("VERIF_WORKER_MEM_GB", "6")) * (1 << 30)
-        resource.setrlimit(resource.RLIMIT_AS, (lim, lim))
+        lim = int(os.environ.get("VERIF_WORKER_MEM_GB", "2")) * (1 << 30)
+        soft, hard = resource.getrlimit(resource.RLIMIT_AS)
+        if hard != resource.RLIM_INFINITY:
+            lim = min(lim, hard)
+        resource.setrlimit(resource.RLIMIT_AS, (lim, hard if hard != resource.RLIM_INFINITY else lim))
     except Exception:
         pass
+
+
+def _batch(args):
+    pid, seeds, tier = args
+    faulthandler.dump_traceback_later(1500, exit=True)
+    _worker_memory_limit()
     mod = load_prop_bootstrapped(pid)
     cover = _cover_start()
     outs = []
@@ -205,11 +212,17 @@ def reproduces(pid, scenario, trace, sig):
     return any(v["sig"] == sig for v in o["violations"]), o
 
 
-def minimise(pid, scenario, trace, sig, budget=120):
-    """delta-debugging: scenario knobs towards the property module's simplest element, then the decision trace"""
+def minimise(pid, scenario, trace, sig, budget=120, on_improve=None):
+    """delta-debugging: scenario knobs towards the property module's simplest element, then the decision trace.
+    ``on_improve(scenario, trace, runs, outcome)`` is called after every accepted step (the caller may be cut short)"""
     mod = load_prop(pid)
     best_sc, best_tr = scenario, trace
     runs = 0
+
+    def note(sc_, tr_, out_):
+        if on_improve is not None:
+            on_improve(sc_, [t[2] if isinstance(t, list) else int(t) for t in tr_], runs, out_)
+
     improved = True
     while improved and runs < budget:
         improved = False
@@ -218,35 +231,109 @@ def minimise(pid, scenario, trace, sig, budget=120):
                 break
             runs += 1
             # first with every decision defaulted (simplest schedule), then with the recorded decisions
-            ok, _ = reproduces(pid, cand, [], sig)
+            ok, out = reproduces(pid, cand, [], sig)
             if ok:
                 best_sc, best_tr, improved = cand, [], True
+                note(best_sc, best_tr, out)
                 break
             if best_tr:
                 runs += 1
-                ok, _ = reproduces(pid, cand, [t[2] if isinstance(t, list) else t for t in best_tr], sig)
+                ok, out = reproduces(pid, cand, [t[2] if isinstance(t, list) else t for t in best_tr], sig)
                 if ok:
                     best_sc, improved = cand, True
+                    note(best_sc, best_tr, out)
                     break
     # decision trace: zero from the end, then chunks
     tr = [t[2] if isinstance(t, list) else int(t) for t in best_tr]
     if tr and runs < budget:
         runs += 1
-        ok, _ = reproduces(pid, best_sc, [], sig)
+        ok, out = reproduces(pid, best_sc, [], sig)
         if ok:
             tr = []
+            note(best_sc, tr, out)
     i = 0
     while tr and i < len(tr) and runs < budget:
         if tr[i] != 0:
             cand = tr[:i] + [0] + tr[i + 1:]
             runs += 1
-            ok, _ = reproduces(pid, best_sc, cand, sig)
+            ok, out = reproduces(pid, best_sc, cand, sig)
             if ok:
                 tr = cand
+                note(best_sc, tr, out)
         i += 1
     while tr and tr[-1] == 0:
         tr.pop()
     return best_sc, tr, runs
+
+
+def _slim_outcome(o, sig):
+    return {"digest": o.get("digest", ""), "violations": [v for v in o.get("violations", []) if v["sig"] == sig][:3],
+            "harness_error": o.get("harness_error")}
+
+
+def _shrink_child(conn, pid, sc, tr, sig, budget):
+    try:
+        _worker_memory_limit()
+
+        def on_improve(bsc, btr, runs, out):
+            conn.send(("best", bsc, btr, runs, _slim_outcome(out, sig)))
+
+        msc, mtr, runs = minimise(pid, sc, tr, sig, budget=budget, on_improve=on_improve) if budget else (sc, tr, 0)
+        ok, oo = reproduces(pid, msc, mtr, sig)
+        if not ok:  # never report an unminimised failure as minimised
+            msc, mtr = sc, tr
+            ok, oo = reproduces(pid, msc, mtr, sig)
+        conn.send(("final", msc, mtr, runs, _slim_outcome(oo, sig), ok))
+    except BaseException as e:  # incl. MemoryError under a defective tree
+        try:
+            conn.send(("error", repr(e)[:300]))
+        except Exception:
+            pass
+    finally:
+        conn.close()
+
+
+def shrink_isolated(pid, sc, tr, sig, budget, wall, first_outcome):
+    """minimise in a forked child under the workers' memory limit and a wall budget; the parent keeps the last accepted
+    step, so a defective tree that makes re-runs slow or huge costs minimisation quality, never the verdict"""
+    ctx = multiprocessing.get_context("fork")
+    parent, child = ctx.Pipe(duplex=False)
+    pr = ctx.Process(target=_shrink_child, args=(child, pid, sc, tr, sig, budget), daemon=True)
+    pr.start()
+    child.close()
+    best = (sc, tr, 0, _slim_outcome(first_outcome, sig))
+    status = "cut short by the wall budget"
+    deadline = _real_time() + wall
+    try:
+        while True:
+            left = deadline - _real_time()
+            if left <= 0:
+                break
+            if parent.poll(min(left, 1.0)):
+                try:
+                    msg = parent.recv()
+                except EOFError:
+                    status = "child ended early"
+                    break
+                if msg[0] == "best":
+                    best = (msg[1], msg[2], msg[3], msg[4])
+                elif msg[0] == "final":
+                    if msg[5]:
+                        best = (msg[1], msg[2], msg[3], msg[4])
+                    status = "complete"
+                    break
+                else:
+                    status = "child failed: " + msg[1]
+                    break
+            elif not pr.is_alive() and not parent.poll(0):
+                status = "child ended early"
+                break
+    finally:
+        if pr.is_alive():
+            pr.kill()
+        pr.join(5)
+        parent.close()
+    return best + (status,)
 
 
 def write_replay(pid, scenario, trace, sig, outcome, note=""):
@@ -277,7 +364,23 @@ def _git_head():
         return "unknown"
 
 
+def _limit_own_memory():
+    """worlds also run in THIS process (minimisation, replay): a defective tree that asks for huge sample arrays must end
+    in a MemoryError inside the world, not in the machine's OOM killer taking the whole check down without a verdict"""
+    try:
+        import resource
+
+        lim = int(os.environ.get("VERIF_PARENT_MEM_GB", "6")) * (1 << 30)
+        soft, hard = resource.getrlimit(resource.RLIMIT_AS)
+        if hard != resource.RLIM_INFINITY:
+            lim = min(lim, hard)
+        resource.setrlimit(resource.RLIMIT_AS, (lim, hard))
+    except Exception:
+        pass
+
+
 def replay_file(path, quiet=False):
+    _limit_own_memory()
     with open(path) as f:
         doc = json.load(f)
     pid = doc["property"]
@@ -299,6 +402,7 @@ def replay_file(path, quiet=False):
 # ------------------------------------------------------------------------------------------------
 def run_check(pid, tier, base_seed, n_worlds=None, workers=None, wall_budget=None):
     t_start = _real_time()
+    _limit_own_memory()
     mod = load_prop_bootstrapped(pid)
     cfg = mod.TIERS[tier]
     n = int(n_worlds or cfg["worlds"])
@@ -361,31 +465,49 @@ def run_check(pid, tier, base_seed, n_worlds=None, workers=None, wall_budget=Non
         lines.append(f"KNOWN-FINDING: property={pid} {sig}  [{len(by_sig[sig])} world(s) this run]")
     replays = []
     screen = bool(os.environ.get("VERIF_SCREEN"))  # development-time screening of mutants: verdict only
+    shrink_deadline = _real_time() + cfg.get("shrink_wall_total", 300 if tier == "quick" else 1500)
     for sig in new_sigs:
-        o, v = by_sig[sig][0]
+        # the smallest world showing the signature (shortest event log; a deterministic measure) is minimised and replayed
+        o, v = min(by_sig[sig], key=lambda ov: (ov[0].get("n_events", 0), ov[0]["world_seed"]))
         if screen:
             lines.append(f"VIOLATION property={pid} replay=(screening run: not written)")
             lines.append(f"  signature: {sig}")
             exit_code = 1
             continue
         sc, tr = o["scenario"], [t[2] for t in o["trace"]]
+        world_wall = float(o.get("wall", 1.0))
         try:
             budget = 0 if os.environ.get("VERIF_NO_MINIMISE") else cfg.get("shrink_budget", 80)
             if len(new_sigs) > 6:  # many distinct signatures at once: share the budget
                 budget = max(8, budget // 4) if budget else 0
-            msc, mtr, runs = minimise(pid, sc, tr, sig, budget=budget) if budget else (sc, tr, 0)
-            ok, oo = reproduces(pid, msc, mtr, sig)
-            if not ok:  # never report an unminimised failure as minimised
-                msc, mtr = sc, tr
-                ok, oo = reproduces(pid, msc, mtr, sig)
-            path = write_replay(pid, msc, mtr, sig, oo, note=f"minimised in {runs} re-runs from seed {o['world_seed']}")
-            # the replay file must reproduce in a fresh interpreter
-            rc = subprocess.run([sys.executable, os.path.join(VERIF, "run.py"), "replay", path, "--quiet"],
-                                capture_output=True, text=True, timeout=600,
-                                env=dict(os.environ, PYTHONHASHSEED="0"))
-            if rc.returncode != 1:
-                harness_errors.append(f"replay of {path} did not reproduce in a fresh interpreter "
-                                      f"(rc={rc.returncode}): {rc.stdout[-300:]} {rc.stderr[-300:]}")
+            left = shrink_deadline - _real_time()
+            wall_sig = max(0.0, min(left, cfg.get("shrink_wall", 120 if tier == "quick" else 600)))
+            full = len(replays) < cfg.get("max_minimised_signatures", 10)
+            if not full:
+                # many signatures of one defect: the remaining ones get their recorded (unminimised) world as replay file
+                path = write_replay(pid, sc, tr, sig, _slim_outcome(o, sig),
+                                    note=f"recorded world of seed {o['world_seed']} (not minimised: {len(replays)} signatures already were)")
+                replays.append(path)
+                lines.append(f"VIOLATION property={pid} replay={path}")
+                lines.append(f"  signature: {sig}")
+                exit_code = 1
+                continue
+            if budget and wall_sig > 3 * world_wall + 2:
+                msc, mtr, runs, oo, status = shrink_isolated(pid, sc, tr, sig, budget, wall_sig, o)
+            else:
+                msc, mtr, runs, oo, status = sc, tr, 0, _slim_outcome(o, sig), "not attempted (no budget left)"
+            path = write_replay(pid, msc, mtr, sig, oo, note=f"minimised in {runs} re-runs from seed {o['world_seed']} ({status})")
+            # the replay file must reproduce in a fresh interpreter (same memory limit as the workers)
+            try:
+                rc = subprocess.run([sys.executable, os.path.join(VERIF, "run.py"), "replay", path, "--quiet"],
+                                    capture_output=True, text=True, timeout=max(90.0, 6 * world_wall + 30),
+                                    env=dict(os.environ, PYTHONHASHSEED="0",
+                                             VERIF_PARENT_MEM_GB=os.environ.get("VERIF_WORKER_MEM_GB", "2")))
+                if rc.returncode != 1:
+                    harness_errors.append(f"replay of {path} did not reproduce in a fresh interpreter "
+                                          f"(rc={rc.returncode}): {rc.stdout[-300:]} {rc.stderr[-300:]}")
+            except subprocess.TimeoutExpired:
+                lines.append(f"  note: the fresh-interpreter replay of {path} did not finish in its time limit")
             replays.append(path)
             lines.append(f"VIOLATION property={pid} replay={path}")
             lines.append(f"  signature: {sig}")
@@ -398,13 +520,19 @@ def run_check(pid, tier, base_seed, n_worlds=None, workers=None, wall_budget=Non
             exit_code = 1
 
     completed = [o for o in outs if not o["harness_error"]]
+    partial = None
     if timed_out:
-        harness_errors.append(f"wall budget {wall_budget}s exceeded with {len(outs)}/{n} worlds done")
+        # a slow or loaded machine explores fewer worlds inside the wall budget: that is less evidence, not a broken check -
+        # unless so little ran that nothing can be said
+        if len(completed) >= max(1, n // 5):
+            partial = f"wall budget {wall_budget}s reached with {len(completed)}/{n} worlds completed (verdict covers those)"
+        else:
+            harness_errors.append(f"wall budget {wall_budget}s exceeded with {len(outs)}/{n} worlds done")
     if len(completed) < n and not timed_out and not harness_errors:
         harness_errors.append(f"only {len(completed)}/{n} worlds completed")
-    # reach self-check: required probes must have fired
+    # reach self-check: required probes must have fired (not demanded of a run cut short by the wall budget)
     missing = [p for p in cfg.get("required_probes", []) if probes.get(p, 0) == 0]
-    if missing and not harness_errors:
+    if missing and not harness_errors and not partial:
         harness_errors.append("required reach probes at zero: " + ", ".join(missing))
 
     wall = _real_time() - t_start
@@ -432,6 +560,7 @@ def run_check(pid, tier, base_seed, n_worlds=None, workers=None, wall_budget=Non
             "replay_files": replays,
             "seeds": f"world_seed(base={base_seed}, i) for i in [0,{n})",
             "harness_errors": harness_errors[:5],
+            "partial_run": partial,
         },
         "assumptions": mod.ASSUMPTIONS,
         "wall_s": round(wall, 3),
@@ -444,6 +573,8 @@ def run_check(pid, tier, base_seed, n_worlds=None, workers=None, wall_budget=Non
 
     for ln in lines:
         print(ln)
+    if partial:
+        print("NOTE", pid, partial)
     print(f"[{pid} {tier}] worlds={len(completed)}/{n} distinct_nontrivial={len(keys)} new_violations={len(new_sigs)} "
           f"known={len(known_hit)} wall={wall:.1f}s sim={sim_seconds:.1f}s faults={sum(faults.values())}")
     if harness_errors:
